@@ -86,15 +86,57 @@ func (rn *runner) laxOne(r *rng.R, name, value string, all bool) {
 				"accepts-any-token:"+asciiLower(name), r.Seed())
 		}
 	}
+	// a unitless number other than a true zero is not a length: where a length stands and a plain
+	// number (7) is refused, 0.5 / .25 / -0.1 / 1e-3 must be refused too, and -0 / 0.0 / +0 must mean 0
+	fraction := func(path []int) {
+		tk := toks
+		for i, k := range path {
+			if i == len(path)-1 {
+				if _, ok := tk[k].(pa.Dimension); !ok {
+					return
+				}
+			} else {
+				tk = tk[k].(pa.FunctionBlock).Arguments
+			}
+		}
+		with := func(txt string) string { return pa.Serialize(replaceAt(toks, path, parseValue(txt)[0])) }
+		if accepted(name, with("7")) || accepted(name, with("1.5")) {
+			return // the position takes plain numbers
+		}
+		for _, f := range []string{"0.5", ".25", "-0.1", "1e-3", "0.999", "-.5"} {
+			mut := with(f)
+			rn.out.Count(name+": "+mut, true)
+			rn.out.Hit("lax:fraction")
+			if accepted(name, mut) {
+				rn.add("judge", "judge:invalid-accepted", name+": "+value+"; "+name+": "+mut, declsText(preprocessText(name+": "+mut)), "",
+					"a unitless number in (-1,1) stands for a length: only a true zero is a length; the declaration must be dropped alone",
+					"unitless-fraction-as-length:"+asciiLower(name), r.Seed())
+				break
+			}
+		}
+		if zero := with("0"); accepted(name, zero) {
+			want := declsText(preprocessText(name + ": " + zero))
+			for _, z := range []string{"-0", "0.0", "+0", "0e3"} {
+				if got := declsText(preprocessText(name + ": " + with(z))); got != want {
+					rn.add("judge", "judge:spelling", name+": "+zero+"  ~~  "+name+": "+with(z), got, want,
+						"a zero spelled "+z+" is not treated as the unitless zero length", "zero-spelling:"+asciiLower(name), r.Seed())
+					break
+				}
+			}
+		}
+	}
 	if all {
 		for _, p := range paths {
 			for _, b := range bogusTokens {
 				try(p, b)
 			}
+			fraction(p)
 		}
 		return
 	}
-	try(paths[r.Intn(len(paths))], bogusTokens[r.Intn(len(bogusTokens))])
+	pth := paths[r.Intn(len(paths))]
+	try(pth, bogusTokens[r.Intn(len(bogusTokens))])
+	fraction(pth)
 }
 
 // laxScan: every property x (sampled or all) accepted atoms and the harvested literals, every position.
